@@ -267,6 +267,12 @@ LSTerms ==
      Quant("exists", <<BVar("ap", TArray(TInt, TPair))>>, Op("equals", <<Op("array_select", <<Sym("ap", TArray(TInt, TPair)), IntC(0)>>), PP>>)),
      Quant("exists", <<BVar("pp", TPair), BVar("p", TBool)>>, Op("or", <<P, Op("equals", <<K1s, K2s>>)>>)),
      Op("equals", <<Op("array_select", <<Op("array_select", <<ANest, Xx>>), Yy>>), RealC(<<1, 2>>)>>),
+     \* function sorts that are permutations of one another (same multiset of sorts, another order / another result)
+     Op("le", <<App("fir", TFun(TReal, <<TInt>>), <<Xx>>), Sym("r", TReal)>>),
+     Op("le", <<App("fri", TFun(TInt, <<TReal>>), <<Sym("r", TReal)>>), Xx>>),
+     App("gir", TFun(TBool, <<TInt, TReal>>), <<Xx, Sym("r", TReal)>>),
+     App("gri", TFun(TBool, <<TReal, TInt>>), <<Sym("r", TReal), Xx>>),
+     Op("and", <<App("gbi", TFun(TBool, <<TBV(2), TInt>>), <<Bb, Xx>>), Op("equals", <<App("hib", TFun(TBV(2), <<TInt, TBool>>), <<Xx, P>>), Bb>>)>>),
      \* a declared sort that occurs ONLY two array levels down (as element, as index of the inner index sort)
      Op("equals", <<Op("array_select", <<Op("array_select", <<Sym("grid", TArray(TInt, TArray(TInt, TSort("Elem")))), Xx>>), Yy>>),
                     Op("array_select", <<Op("array_select", <<Sym("grid", TArray(TInt, TArray(TInt, TSort("Elem")))), Yy>>), Xx>>)>>),
